@@ -45,6 +45,9 @@ Check ==
   /\ (Tr.obs_fresh = <<>> \/ Tr.obs_fresh = Tr.obs \/ say("P-FreshEq", Tr.obs, Tr.obs_fresh))
   /\ (Tr.obs_again = Tr.obs \/ say("P-ReadInert", Tr.obs, Tr.obs_again))
   /\ (Tr.outs_ok \/ say("P-OutputsAgree", Tr.outs, <<>>))
+  \* the loads of these sessions (hand-written files without default-marked entries, replacing loads of files the
+  \* tool wrote for the same program) inject nothing (KStore.LoadP: no mismatch): the program's defaults are intact
+  /\ (Tr.inj = <<>> \/ say("R-NoInjection", <<>>, Tr.inj))
 
 All == i = 0 \/ Tr.err \/ Check
 =============================================================================
